@@ -89,6 +89,8 @@ def main():
             perms = list(itertools.permutations(st))
             if ck.tier == 'quick' and len(perms) > 4:
                 perms = rng.sample(perms, 4)
+            elif len(perms) > 8:          # thorough: every order up to 3 members, 8 sampled orders of 4 (kept under ~10 min)
+                perms = rng.sample(perms, 8)
             for pm in perms:
                 multis.append((kind, pm))
     queries = [Coordinate(x, y) for x, y in ((2, 2), (5, 5), (21, 21.25), (40, 40), (9, 9), (2, 3), (30, 30))]
@@ -98,7 +100,7 @@ def main():
         return cls([pool[n]() for n in pm], **kw)
 
     # the multi-shape as receiver
-    args = [('s', n) for n in singles] + [('m',) + m for m in multis[:: max(1, len(multis) // (10 if ck.tier == 'quick' else 60))]]
+    args = [('s', n) for n in singles] + [('m',) + m for m in multis[:: max(1, len(multis) // (10 if ck.tier == 'quick' else 40))]]
     for kind, pm in multis:
         M = mk(kind, pm)
         mem = [POOLS[kind][0][n]() for n in pm]
@@ -191,7 +193,7 @@ def main():
         ck.violation({'kind': 'property-fails-on-implementation' if 'property_violation' in meta[i] else 'model-vs-implementation',
                       'case': meta[i], 'gallina_case': cases[i], 'theorems': 'C04_* (Props/C04.v)'})
     ck.finish(rule='multi-polygons / -linestrings / -points built from named member pools, 1..4 members, member orders permuted '
-                   '(all orders in thorough, 4 sampled per set in quick) x every single fixture (polygons incl. with hole, lines, points, boxes, circle) '
+                   '(all orders up to 3 members and 8 sampled orders of 4 in thorough, 4 sampled per set in quick) x every single fixture (polygons incl. with hole, lines, points, boxes, circle) '
                    'and sampled multi-shape arguments, both as receiver and as argument; coordinate queries; bounds; split with dt/properties. '
                    'Member-level answers are the implementation own. non-trivial = the deciding member is NOT the first member (distinct cases counted)',
               assumptions=['member-level predicates are abstract in the theorems (C01/C02 decide them)'])
